@@ -128,3 +128,14 @@ Fixpoint while_fuel_brk {S : Type} (fuel : nat) (st : S) (cond : S -> outcome bo
 Definition clz128 (x : Z) : Z := if x =? 0 then 128 else 127 - Z.log2 x.
 Definition mat_eqb (x y : Z * Z * Z * Z * bool) : bool :=
   (mat_0 x =? mat_0 y) && (mat_1 x =? mat_1 y) && (mat_2 x =? mat_2 y) && (mat_3 x =? mat_3 y) && Bool.eqb (mat_4 x) (mat_4 y).
+
+(* `while c { body }` with a bound on the number of rounds (the condition is evaluated first) *)
+Fixpoint while_rounds {S : Type} (fuel : nat) (st : S) (cond : S -> outcome bool) (body : S -> outcome S)
+  : outcome S :=
+  do c <- cond st ;
+  if (c : bool) then
+    match fuel with
+    | O => OutOfFuel
+    | Datatypes.S fuel' => do st' <- body st ; while_rounds fuel' st' cond body
+    end
+  else Val st.
